@@ -67,15 +67,17 @@ func (r *ServiceReconciler) reconcileService(ctx context.Context, req ctrl.Reque
 
 	var service *v1.Service
 
-	if !r.initialLoadPerformed {
-		level.Debug(r.Logger).Log("controller", "ServiceReconciler", "message", "filtered service, still waiting for the initial load to be performed")
-		return ctrl.Result{}, nil
-	}
-
 	service, err := r.serviceFor(ctx, req.NamespacedName)
 	if err != nil {
 		level.Error(r.Logger).Log("controller", "ServiceReconciler", "message", "failed to get service", "service", req.NamespacedName, "error", err)
 		return ctrl.Result{}, err
+	}
+
+	// A deletion is never seen again by the full reload (it only lists the
+	// existing services), so it must be processed even before the initial load.
+	if !r.initialLoadPerformed && service != nil {
+		level.Debug(r.Logger).Log("controller", "ServiceReconciler", "message", "filtered service, still waiting for the initial load to be performed")
+		return ctrl.Result{}, nil
 	}
 
 	if filterByLoadBalancerClass(service, r.LoadBalancerClass) {
